@@ -31,6 +31,9 @@ pub enum Mode {
     InternalDefine,
     /// stored in a global and called (twice) from later top-level forms
     StoreCallLater,
+    /// every activation pushes its closure onto a global list; later forms call all of them, so
+    /// closures of separate activations of an inner level are used after one another
+    CollectAll,
     /// the level returns the closure; the top level calls it later (only meaningful at level 0,
     /// elsewhere it is called by the creator after the post-actions)
     Return,
@@ -58,6 +61,7 @@ struct Render {
     stored: Vec<(String, usize)>, // global name, number of params of the stored closure
     later: Vec<Sx>,
     names: usize,
+    collectors: Vec<String>,
 }
 
 impl Render {
@@ -174,6 +178,25 @@ impl Render {
                                 self.later.push(call(&g, a));
                             }
                         }
+                        Mode::CollectAll => {
+                            let g = format!("%g{}", self.stored.len());
+                            self.stored.push((g.clone(), n));
+                            self.collectors.push(g.clone());
+                            inner_forms.push(list(vec![
+                                sym("set!"),
+                                sym(&g),
+                                call("cons", vec![lam, call("%as-list", vec![sym(&g)])]),
+                            ]));
+                            for _ in 0..2 {
+                                let a = self.args(n, has_rest);
+                                let mut c = vec![sym("%k")];
+                                c.extend(a);
+                                self.later.push(call(
+                                    "for-each",
+                                    vec![list(vec![sym("lambda"), list(vec![sym("%k")]), list(c)]), sym(&g)],
+                                ));
+                            }
+                        }
                         Mode::Return => {
                             result = lam;
                         }
@@ -222,6 +245,7 @@ impl Skeleton {
             stored: vec![],
             later: vec![],
             names: self.names,
+            collectors: vec![],
         };
         let (formals, n, has_rest) = r.formals(&self.top);
         let body = r.body(&self.top, 0);
@@ -230,6 +254,7 @@ impl Skeleton {
         let mut forms = vec![
             list(vec![sym("define"), sym("%log"), quote(list(vec![]))]),
             crate::sx::read_one("(define (%rec tag v) (set! %log (cons (cons tag v) %log)) v)").unwrap(),
+            crate::sx::read_one("(define (%as-list x) (if (pair? x) x '()))").unwrap(),
         ];
         for i in 0..self.names {
             forms.push(list(vec![sym("define"), sym(NAMES[i]), int(100 + i as i64)]));
@@ -351,11 +376,12 @@ fn random_acts(rng: &mut Rng, names: usize, max: usize) -> Vec<Act> {
 
 fn random_level(rng: &mut Rng, names: usize, depth_left: usize) -> Level {
     let inner = if depth_left > 0 {
-        let mode = match rng.below(6) {
+        let mode = match rng.below(8) {
             0 => Mode::CallNow,
             1 => Mode::LetCallTwice,
             2 => Mode::InternalDefine,
             3 | 4 => Mode::StoreCallLater,
+            5 | 6 => Mode::CollectAll,
             _ => Mode::Return,
         };
         Some((Box::new(random_level(rng, names, depth_left - 1)), mode))
@@ -407,7 +433,7 @@ pub fn enumerate_small() -> Vec<Skeleton> {
                     if a1 == Bind::Rest && b1 == Bind::Rest {
                         continue;
                     }
-                    for mode in [Mode::CallNow, Mode::LetCallTwice, Mode::InternalDefine, Mode::StoreCallLater, Mode::Return] {
+                    for mode in [Mode::CallNow, Mode::LetCallTwice, Mode::InternalDefine, Mode::StoreCallLater, Mode::CollectAll, Mode::Return] {
                         out.push(Skeleton {
                             top: Level {
                                 binds: [a0, b0, Bind::None],
